@@ -157,6 +157,7 @@ struct Case
     int vd;    // extra rotation of operand b against operand a
     int vm;    // step of the rotation between neighbouring positions (1..10; 11 is prime, so every step is a permutation)
     int al;    // Alias form: AL_NONE, AL_CA (result object IS operand a), AL_CB, AL_AB (a and b one object), AL_CAB
+    int cv;    // constant sweep: 0 = off; 1..192 = the broadcast / constant operand takes the value 2^k - 1, 2^k, 2^k + 1 (k = (cv-1)/3)
     int bo;    // alias form a:b only: operand b starts `bo` elements after operand a inside the one object (0 = same base pointer)
     int pl;    // placement: 0 = the default address of every array; 1..4 = every array starts at an address = 8*(pl-1) modulo 32
     int reent; // re-entrancy step: number of threads that execute the case concurrently on private data (0 = ordinary case)
@@ -189,6 +190,7 @@ inline std::string casestr(const Case &c)
     if (c.reent) t += fmt(" reent=%d", c.reent);
     if (c.pl) t += fmt(" pl=%d", c.pl);
     if (c.bo) t += fmt(" bo=%d", c.bo);
+    if (c.cv) t += fmt(" cv=%d", c.cv);
     return t;
 }
 inline std::string ipname(int pat) { return pat < NIP ? std::string(IPN[pat]) : fmt("g%d", pat - NIP); }
@@ -220,6 +222,7 @@ inline bool parse_casestr(const std::string &str, Case &c)
     c.reent = (int)cu(m, "reent", 0);
     c.pl = (int)cu(m, "pl", 0);
     c.bo = (int)cu(m, "bo", 0);
+    c.cv = (int)cu(m, "cv", 0);
     c.al = AL_NONE;
     std::string al = cs(m, "alias", "-");
     for (int j = 1; j < NAL; j++)
@@ -236,7 +239,7 @@ inline bool is_huge(const Case &c)
     return false;
 }
 inline bool is_gapword(const Case &c) { return c.ip[0] >= NIP || c.ip[1] >= NIP || c.ip[2] >= NIP; }
-inline std::string sig_suffix(const Case &c) { return std::string(c.al ? ".alias" : "") + (is_huge(c) ? ".hugestride" : "") + (is_gapword(c) ? ".idxshape" : "") + (c.pl ? ".placed" : "") + (c.bo ? ".adjacent" : ""); }
+inline std::string sig_suffix(const Case &c) { return std::string(c.al ? ".alias" : "") + (is_huge(c) ? ".hugestride" : "") + (is_gapword(c) ? ".idxshape" : "") + (c.pl ? ".placed" : "") + (c.bo ? ".adjacent" : "") + (c.cv ? ".constsweep" : ""); }
 
 // ---------------------------------------------------------------- one case
 struct Counters
@@ -464,6 +467,7 @@ inline std::string run_case(const Case &c, Counters *cnt, std::string *sample = 
             for (int i = 0; i < o.kind; i++)
             {
                 u64 v = c.vp > 0 ? passval(q, 0, i) : tagv(q, 7000 + i);
+                if (c.cv) { int k = (c.cv - 1) / 3, d = (c.cv - 1) % 3; v = (1ULL << k) + (u64)d - 1; if (i) v = (v * 0x9E3779B97F4A7C15ULL) | (1ULL << k); } // coefficient 0 sweeps, the others stay generic
                 if (o.carrier == C_REGC)
                     for (int k = 0; k < MAXL; k++) A.reg[q][i][k] = v;
                 else *cell(q, 0, i) = v;
@@ -949,6 +953,53 @@ done:
     rep().flush();
 }
 
+// ---------------------------------------------------------------- constant sweep
+// Overloads with an operand that is ONE constant for all lanes (scalar by pointer, by value or broadcast register): the constant
+// takes every 2^k - 1, 2^k, 2^k + 1 (k = 0..63) against tagged lane operands (about half of them >= 2^63) -- a strength-reduced
+// path for "nice" constants has to be right for each of them.
+inline void run_consts(int si, const char *prop)
+{
+    const Spec &s = ovl_specs[si];
+    bool anyc = false;
+    for (int q = 1; q < 3; q++)
+    {
+        int cr = opnd(s, q).carrier;
+        anyc |= (cr == C_CONST_PTR || cr == C_CONST_VAL || cr == C_REGC);
+    }
+    if (!anyc) return;
+    Counters cnt;
+    long long nv = 0;
+    for (int cv = 1; cv <= 192; cv++)
+    {
+        Case c;
+        memset(&c, 0, sizeof c);
+        c.si = si;
+        c.vm = 1;
+        c.cv = cv;
+        for (int q = 0; q < 3; q++)
+        {
+            const Operand &o = opnd(s, q);
+            c.s[q] = o.carrier == C_ARR_STRIDE ? (u64)o.kind : 0;
+            c.ip[q] = IP_IDENT;
+        }
+        std::string cs_ = casestr(c);
+        if (g_cur) { strncpy(g_cur, cs_.c_str(), 4000); g_cur[4000] = 0; }
+        std::string f = run_case(c, &cnt);
+        if (f.empty()) continue;
+        size_t t = f.find('\t');
+        rep().viol(std::string(prop) + "." + f.substr(0, t) + "." + s.id + sig_suffix(c), cs_, fmt("%s(%s) %s:%d: ", s.name, s.decl, s.file, s.line) + f.substr(t + 1));
+        if (++nv >= 8) break;
+    }
+    if (g_cur) g_cur[0] = 0;
+    const char *pre = OVL_EXACT ? "asan_" : "";
+    rep().stat(std::string(pre) + "states", cnt.cases);
+    rep().stat(std::string(pre) + "transitions", cnt.cases);
+    rep().stat(std::string(pre) + "evaluations", cnt.evals);
+    if (!OVL_EXACT) rep().stat("distinct_nontrivial", cnt.cases);
+    rep().stat(std::string(pre) + "constsweep_states", cnt.cases);
+    rep().flush();
+}
+
 // ---------------------------------------------------------------- placements
 // Every overload with every memory operand starting at each of the four addresses 0, 8, 16, 24 modulo 32 (an Element needs
 // 8-byte alignment only; vector code may take an aligned fast path or use an instruction that needs alignment): unit / stride 5,
@@ -1267,6 +1318,16 @@ inline int ovl_main(int argc, char **argv)
             report_abnormal(r, si, prop, g_cur);
             rep().stat("overloads_aborted", 1);
             rep().flush(); // before the next child is forked (it would inherit and re-print these counters)
+        }
+        if (!OVL_PRIVATE)
+        {
+            g_cur[0] = 0;
+            Iso h = isolated([&]() { run_consts(si, prop); }, 300);
+            if (h.kind != 0)
+            {
+                report_abnormal(h, si, prop, g_cur);
+                rep().flush();
+            }
         }
         {
             g_cur[0] = 0;
